@@ -128,15 +128,24 @@ def analyse(facts, tier):
 
     # ---- R3
     non = facts.fn('OPNMIDIplay::realTime_NoteOn')
+    # the instrument pointer of the note being started: the local that is stored into NoteInfo::ains
+    ains_id = None
+    for b, j, st in non.cfg.stmts():
+        for x in walk(st['s']):
+            ap = assign_parts_raw(x)
+            if ap and strip(ap[0]).get('k') == 'MemberExpr' and short(strip(ap[0])['n']) == 'ains' and 'NoteInfo' in strip(ap[0])['n'] and strip(ap[1]).get('k') == 'DeclRefExpr' and not strip(ap[1]).get('parm'):
+                ains_id = strip(ap[1])['id']
+    if ains_id is None:
+        raise build.AnalysisBroken('C04.R3: the local stored into NoteInfo::ains not found in realTime_NoteOn')
     for b, j, st in non.cfg.stmts():
         for x in walk(st['s']):
             ap = assign_parts(x)
             tgt = rhs = None
-            if ap and strip(ap[0]).get('k') == 'DeclRefExpr' and short(strip(ap[0])['n']) == 'ains':
+            if ap and strip(ap[0]).get('k') == 'DeclRefExpr' and strip(ap[0]).get('id') == ains_id:
                 rhs = strip(ap[1])
             if x.get('k') == 'DeclStmt':
                 for v in x['decls']:
-                    if v['n'] == 'ains' and 'init' in v:
+                    if v['id'] == ains_id and 'init' in v:
                         rhs = strip(v['init'])
             if rhs is None:
                 continue
